@@ -160,6 +160,17 @@ PROPS["C07"] = {
     ],
 }
 
+PROPS["C15"] = {
+    "technique": "property-based testing (rapid): generated CAR layouts x ignore-sets x callback delays x GOMAXPROCS, callback sequence compared with the generator's offset table",
+    "level_text": "Generated epoch CARs (blocks with 0..N children, Subset nodes in the middle of the file, trailing Subset/Epoch objects, multi-frame payloads; thorough: blocks with >5000 children) are traversed with accum.NewObjectAccumulator(...).Run using every ignore-set class (none, the address indexer's, the splitter's, random), generated callback delays (none/Gosched/50us/500us), GOMAXPROCS 1/2/16 and a fast or slow reader. The callback sequence must be one group per block in file order with exactly the non-ignored objects since the previous block, each with its true CID, offset, section length and bytes, plus one final group for trailing objects; callbacks must not overlap, data handed to a callback must stay intact until it returns, and Run returns only after all callbacks ended. Exploration level.",
+    "level_note": "Goroutine schedules are perturbed (delays, GOMAXPROCS), not enumerated. Ground truth comes from the cargen CAR writer.",
+    "rule": ("rapid draws an epoch spec, ignore-set, delay pattern, GOMAXPROCS and reader speed; non-trivial = >=2 groups and (non-empty ignore set or a delayed callback); distinct by case hash"),
+    "assumptions": ["cargen offsets are correct (cross-checked by C01 against the real indexer)"],
+    "units": [
+        {"name": "traversal", "pkg": "./accum", "run": "TestVfC15", "checks": T(1500, 60000), "shards": T(6, 16), "timeout": T(900, 3000)},
+    ],
+}
+
 
 # properties not (yet) claimed by a check; kept current by hand
 NOT_APPLICABLE = [
